@@ -15,3 +15,19 @@ chk('C04', 'exploration',
     'Both sides of every capacity boundary (5 modes x 5 levels x 3 micro settings x all admissible versions), every boundary with an exact / too small / larger requested version, and eci=True boundaries are enumerated exhaustively against a capacity model derived from ISO Tables 2, 3, 7; multi-part contents are sampled and re-costed from the decoded segment structure. Every accepted symbol is decoded to show that nothing was cut.',
     'Trusted: capacity/bit-length model in vlib/qrref.py + vlib/common.py, reference decoder. Exhaustive over boundaries for mode-pure content, sampled for mixed content.',
     'exhaustive boundary enumeration + Hypothesis search against a capacity reference model', 'DESIGN.md 4/C04')
+chk('C05', 'exploration',
+    'Exact-fit lengths of every level of the listed versions are enumerated x requested level x boost x version requested/not; the level is read from the format bits and compared with the highest level whose capacity (model) holds the decoded segment structure; the version is compared with the boost_error=False result. Hypothesis adds free and multi-part cases.',
+    'Trusted: capacity model, reference decoder. Enumeration over exact-fit lengths (quick: Micro, 1-10, 20, 27, 40; thorough: all), other lengths sampled.',
+    'enumeration of exact-fit lengths + Hypothesis search, level decoded from the format information', 'DESIGN.md 4/C05')
+chk('C06', 'exploration',
+    'For generated symbols (all versions) the 8/4 candidate maskings are rebuilt from the emitted matrix by unmask/remask and scored by an independent implementation of ISO 7.8.3; segno must have picked the lowest-numbered optimum. Requested masks are checked for all (version, level, mask) triples (thorough) via format bits and zero syndromes after unmasking, also for Structured Append sequences.',
+    'Trusted: vlib/penalty.py (my reading of 7.8.3, two stated oracle decisions), vlib/qrref.py. Symbols are sampled.',
+    'Hypothesis search + metamorphic reconstruction of all mask candidates against an independent penalty implementation', 'DESIGN.md 4/C06')
+chk('C07', 'exploration',
+    'All 65792 one- and two-byte contents are enumerated with automatic mode, requested modes over the same small scope (stratified in quick), longer class-stratified texts x requested modes x versions are sampled; the mode indicator decoded from the symbol is compared with byte predicates typed in from the statement and with QRCode.mode.',
+    'Trusted: byte predicates (vlib/common.py), reference decoder. Exhaustive for lengths 1-2 only.',
+    'exhaustive small-scope enumeration + Hypothesis search against mode predicates', 'DESIGN.md 4/C07')
+chk('C13', 'exploration',
+    'Contents are steered so that every reachable (symbol class x residue x distance-to-capacity) cell is hit; the data bits after the last decoded segment are compared bit by bit with an ISO 7.4.9/7.4.10 tail model, remainder bits must be zero. One known finding (K1) is matched by an exact tail model and reported, everything else is a violation.',
+    'Trusted: iso_tail model and decoder in vlib/qrref.py (the grids printed in the standard reproduce bit-exactly). Sampled over contents; the cell table is in the evidence.',
+    'steered enumeration + Hypothesis search, tail compared with an ISO model', 'DESIGN.md 4/C13')
